@@ -54,6 +54,31 @@ def main():
         finally:
             sh("git -C /repo checkout -- .")
     assert clean()
+    # ---- the KNOWN-FINDING path: a listed finding is announced and does not fail the check; an
+    # unlisted violation of the same property still does -------------------------------------------
+    if not prefixes or "K" in prefixes:
+        import tempfile
+        sh("git -C /repo apply %s/H5_jit_code_survives_set_program.patch" % MUT)
+        try:
+            both = {"findings": [
+                {"id": "K-stale-jit", "property": "C10", "class": "stale-program/jit", "history_kinds": ["jit_compile", "set_program"], "what": "compiled code survives set_program (test entry)"},
+                {"id": "K-stale-jit-crash", "property": "C10", "class": "history-dependent-panic-or-crash/execute-jit", "history_kinds": ["jit_compile", "set_program"], "what": "stale compiled code crashes (test entry)"},
+                {"id": "K-stale-jit-overflow", "property": "C10", "class": "failed-call-changed-state/set_program", "history_kinds": ["jit_compile", "set_program"], "what": "stale compiled code observed in a sweep (test entry)"}]}
+            one = {"findings": both["findings"][1:]}
+            for label, kf, want_rc, want_known in (("all classes listed", both, 0, True), ("one class not listed", one, 1, True)):
+                with tempfile.NamedTemporaryFile("w", suffix=".json", delete=False) as tf:
+                    json.dump(kf, tf)
+                r = sh("cd %s && VERIF_KNOWN_FINDINGS_FILE=%s python3 verif.py check C10 --tier quick" % (ROOT, tf.name))
+                os.unlink(tf.name)
+                has_known = "KNOWN-FINDING: property=C10" in r.stdout
+                has_viol = "VIOLATION property=C10" in r.stdout
+                good = r.returncode == want_rc and has_known == want_known and has_viol == (want_rc == 1)
+                ok_all &= good
+                rows.append(("K_known_findings (%s, tree = H5)" % label, "C10", "exit %d, KNOWN-FINDING lines: %s, VIOLATION lines: %s%s" % (r.returncode, has_known, has_viol, "" if good else "  <-- UNEXPECTED"), "", ""))
+                print(rows[-1], flush=True)
+        finally:
+            sh("git -C /repo checkout -- .")
+    assert clean()
     with open(os.path.join(MUT, "RESULTS.md"), "w") as f:
         f.write("Sensitivity (H/G/X must be DETECTED by the check of their property) and specificity (E must raise no alarm).\n\n")
         f.write("| mutant | check | verdict | violation classes reported | repository test suite with the mutant |\n|---|---|---|---|---|\n")
